@@ -3,8 +3,9 @@ C12 — The font's glyph order follows glyph creation, deletion and renaming.
 
 Property theorems about M-GlyphOrder (`DefconModel/GlyphOrder.lean`, the executable model of
 `Font.glyphOrder`, `Font.updateGlyphOrder`, the font's three layer callbacks and the layer
-operations that trigger them).  Specification-side vocabulary is in `Spec/GlyphOrder.lean`, helper
-lemmas in `Lemmas/GlyphOrder.lean`.
+operations that trigger them, the layer-set operations, and the notification centre's hold / release
+/ disable / enable for a layer).  Specification-side vocabulary is in `Spec/GlyphOrder.lean`, helper
+lemmas in `Lemmas/GlyphOrder.lean` and `Lemmas/GlyphOrderHeld.lean`.
 
 How the quantifier of the property is met.  A *start font* `f0` is ANY well-formed font (`WF`:
 layer names unique, every layer observed — what `Font()`, `Font(path)` and deserialisation
@@ -12,8 +13,15 @@ establish) with ANY content and ANY value under the lib key: absent, empty, part
 superset, even with duplicates.  A *history* is ANY `ops : List Op`.  The per-operation theorems
 are stated at the state `run f0 ops` reached by an arbitrary history; the whole-history theorems
 are by induction over `ops`.  There are no size bounds anywhere.
+
+Histories may hold, release, disable and enable the notifications of any layer (sections 9-11).  A
+sentence of the property about ONE operation is about the moment the font learns of it: the
+per-operation theorems of sections 2-4 therefore ask that nothing is held or disabled on the layer at
+that moment (`Undisturbed`), and section 10 says what holds at the release of a hold, with respect
+to the state at the release.  The whole-history theorems of sections 5-7 hold for every history,
+holds included.
 -/
-import DefconModel.Lemmas.GlyphOrder
+import DefconModel.Lemmas.GlyphOrderHeld
 
 namespace DefconModel.Props.C12
 open DefconModel DefconModel.GlyphOrder
@@ -24,6 +32,26 @@ def HasGlyph (f : Font) (L : String) (g : Name) : Prop :=
 
 /-- "the font has a layer called `L`" -/
 def HasLayer (f : Font) (L : String) : Prop := ∃ l, AL.get? f.layers L = some l
+
+/-- nothing is held or disabled on layer `L`: every notification of the layer reaches the font at
+once (what holds as long as nobody calls `holdNotifications` / `disableNotifications` on it) -/
+def Undisturbed (f : Font) (L : String) : Prop :=
+  match AL.get? f.layers L with
+  | some l => l.held = 0 ∧ l.disabled = 0
+  | none => True
+
+instance (f : Font) (L : String) : Decidable (Undisturbed f L) := by
+  unfold Undisturbed; cases AL.get? f.layers L <;> exact inferInstance
+
+theorem Undisturbed.of_get? {f : Font} {L : String} {l : Layer} (h : Undisturbed f L)
+    (hget : AL.get? f.layers L = some l) : l.held = 0 ∧ l.disabled = 0 := by
+  unfold Undisturbed at h; rw [hget] at h; exact h
+
+theorem undisturbed_of_calm {f : Font} (hc : Calm f) (L : String) : Undisturbed f L := by
+  unfold Undisturbed
+  cases hget : AL.get? f.layers L with
+  | none => trivial
+  | some l => exact ⟨(calm_of_get? hc hget).1, (calm_of_get? hc hget).2.1⟩
 
 /-! ### Fixtures for the non-vacuity examples -/
 
@@ -59,9 +87,10 @@ theorem new_font_wf :
     WF { layers := [("public.default", { glyphs := [], observed := true })], lib := none } :=
   ⟨by simp [AL.keys], by simp⟩
 
-/-- Whatever the history — glyph operations, order assignments, new layers, deleted layers — the
-font still observes every one of its layers (a layer made by `newLayer` is observed from its
-creation on) and layer names stay unique.  So every later theorem applies after any history. -/
+/-- Whatever the history — glyph operations, order assignments, new, deleted, renamed, reordered
+layers, a new default layer, holds and releases — the font still observes every one of its layers (a
+layer made by `newLayer` is observed from its creation on) and layer names stay unique.  So every
+later theorem applies after any history. -/
 theorem all_layers_observed (f0 : Font) (h0 : WF f0) (ops : List Op) : WF (run f0 ops) :=
   wf_run h0 ops
 
@@ -70,11 +99,12 @@ example : (run fx hx).layers.map (fun kl => (kl.1, kl.2.observed)) =
 
 /-! ## 2. Creation -/
 
-/-- After any history: creating a glyph `g` with `newGlyph` in any existing layer succeeds, the
-layer has the glyph, `g` is in the order afterwards, and the order is the old one with `g`
-appended at the end if — and only if — it was absent (otherwise exactly the old order). -/
+/-- After any history: creating a glyph `g` with `newGlyph` in any existing layer whose
+notifications are not held or disabled at that moment succeeds, the layer has the glyph, `g` is in
+the order afterwards, and the order is the old one with `g` appended at the end if — and only if —
+it was absent (otherwise exactly the old order). -/
 theorem created_in_order (f0 : Font) (h0 : WF f0) (ops : List Op) (L : String) (g : Name)
-    (hL : HasLayer (run f0 ops) L) :
+    (hL : HasLayer (run f0 ops) L) (hq : Undisturbed (run f0 ops) L) :
     (step (run f0 ops) (.newGlyph L g)).2 = .ok ∧
     HasGlyph (step (run f0 ops) (.newGlyph L g)).1 L g ∧
     g ∈ glyphOrder (step (run f0 ops) (.newGlyph L g)).1 ∧
@@ -83,25 +113,37 @@ theorem created_in_order (f0 : Font) (h0 : WF f0) (ops : List Op) (L : String) (
        else glyphOrder (run f0 ops) ++ [g]) := by
   obtain ⟨l, hget⟩ := hL
   have hw := wf_run h0 ops
-  obtain ⟨h1, h2, h3⟩ := newGlyph_spec hw hget g
+  obtain ⟨hh, hd⟩ := hq.of_get? hget
+  obtain ⟨h1, h2, h3⟩ := newGlyph_spec hw hget hh hd g
   refine ⟨h1, ?_, ?_, h3⟩
   · refine ⟨{ l with glyphs := addName l.glyphs g }, ?_, mem_addName.mpr (Or.inr rfl)⟩
     simp only [step]; rw [h2, get?_setLayer, if_pos rfl]
   · simp only [step]; rw [h3]; exact mem_appendIfAbsent.mpr (Or.inr rfl)
 
-/-- The same for `insertGlyph(source, name=g)`: the copy's name enters the order exactly like a
-new glyph's (the held `Layer.GlyphAdded` reaches the font when the hold is released). -/
+/-- The same for `insertGlyph(source, name=g)` with its real bracket (hold the layer, `newGlyph`,
+copy, release): on a layer on which nothing is held, disabled or queued the bracket's own hold is
+the only one, its release delivers the one `Layer.GlyphAdded`, and the copy's name enters the order
+exactly like a new glyph's — the whole operation equals `newGlyph`. -/
 theorem inserted_in_order (f0 : Font) (h0 : WF f0) (ops : List Op) (L : String) (g : Name)
-    (hL : HasLayer (run f0 ops) L) :
+    (hL : CalmLayer (run f0 ops) L) :
+    step (run f0 ops) (.insertGlyph L g) = step (run f0 ops) (.newGlyph L g) ∧
     (step (run f0 ops) (.insertGlyph L g)).2 = .ok ∧
     HasGlyph (step (run f0 ops) (.insertGlyph L g)).1 L g ∧
     g ∈ glyphOrder (step (run f0 ops) (.insertGlyph L g)).1 ∧
     glyphOrder (step (run f0 ops) (.insertGlyph L g)).1 =
       (if g ∈ glyphOrder (run f0 ops) then glyphOrder (run f0 ops)
-       else glyphOrder (run f0 ops) ++ [g]) :=
-  created_in_order f0 h0 ops L g hL
+       else glyphOrder (run f0 ops) ++ [g]) := by
+  obtain ⟨l, hget, hc⟩ := hL
+  have e : step (run f0 ops) (.insertGlyph L g) = step (run f0 ops) (.newGlyph L g) := by
+    simp only [step]; exact insertGlyph_calm hget hc g
+  have hq : Undisturbed (run f0 ops) L := by
+    unfold Undisturbed; rw [hget]; exact ⟨hc.1, hc.2.1⟩
+  rw [e]
+  exact ⟨rfl, created_in_order f0 h0 ops L g ⟨l, hget⟩ hq⟩
 
 example : HasLayer (run fx hx) "bg" := ⟨{ glyphs := ["c"], observed := true }, by decide⟩
+example : Undisturbed (run fx hx) "bg" := by decide
+example : CalmLayer (run fx hx) "bg" := ⟨{ glyphs := ["c"], observed := true }, by decide, by decide⟩
 example : glyphOrder (step (run fx hx) (.newGlyph "bg" "a")).1 = ["d", "x", "c", "e", "a"] := by decide
 example : glyphOrder (step (run fx hx) (.newGlyph "bg" "x")).1 = ["d", "x", "c", "e"] := by decide
 
@@ -117,7 +159,7 @@ from that layer; whether the order changes is decided by the state AFTER the del
 does when `Layer.GlyphDeleted` is delivered: if some layer still has a glyph called `g` the order is
 untouched; if none has, the first occurrence of `g` is removed (`List.erase`) and nothing else. -/
 theorem deleted_leaves_iff_gone (f0 : Font) (h0 : WF f0) (ops : List Op) (L : String) (g : Name)
-    (hg : HasGlyph (run f0 ops) L g) :
+    (hg : HasGlyph (run f0 ops) L g) (hq : Undisturbed (run f0 ops) L) :
     (step (run f0 ops) (.delGlyph L g)).2 = .ok ∧
     ¬ HasGlyph (step (run f0 ops) (.delGlyph L g)).1 L g ∧
     (Exists (step (run f0 ops) (.delGlyph L g)).1 g →
@@ -126,7 +168,8 @@ theorem deleted_leaves_iff_gone (f0 : Font) (h0 : WF f0) (ops : List Op) (L : St
       glyphOrder (step (run f0 ops) (.delGlyph L g)).1 = (glyphOrder (run f0 ops)).erase g) := by
   obtain ⟨l, hget, hm⟩ := hg
   have hw := wf_run h0 ops
-  obtain ⟨h1, h2, b, hb, h3⟩ := delGlyph_spec hw hget hm
+  obtain ⟨hh, hd⟩ := hq.of_get? hget
+  obtain ⟨h1, h2, b, hb, h3⟩ := delGlyph_spec hw hget hh hd hm
   have hex : Exists (step (run f0 ops) (.delGlyph L g)).1 g ↔ ExistsElsewhere (run f0 ops) L g := by
     simp only [step]; rw [exists_congr h2, exists_setLayer]; simp [mem_removeName]
   refine ⟨h1, ?_, ?_, ?_⟩
@@ -148,20 +191,21 @@ theorem deleted_leaves_iff_gone (f0 : Font) (h0 : WF f0) (ops : List Op) (L : St
 /-- "Still has" is evaluated after the glyph left its own layer: the name survives in the order
 exactly when a layer OTHER than the one deleted from has a glyph of that name. -/
 theorem deleted_still_exists_iff_elsewhere (f0 : Font) (h0 : WF f0) (ops : List Op) (L : String)
-    (g : Name) (hg : HasGlyph (run f0 ops) L g) :
+    (g : Name) (hg : HasGlyph (run f0 ops) L g) (hq : Undisturbed (run f0 ops) L) :
     Exists (step (run f0 ops) (.delGlyph L g)).1 g ↔ ExistsElsewhere (run f0 ops) L g := by
   obtain ⟨l, hget, hm⟩ := hg
-  obtain ⟨_, h2, _⟩ := delGlyph_spec (wf_run h0 ops) hget hm
+  obtain ⟨hh, hd⟩ := hq.of_get? hget
+  obtain ⟨_, h2, _⟩ := delGlyph_spec (wf_run h0 ops) hget hh hd hm
   simp only [step]; rw [exists_congr h2, exists_setLayer]; simp [mem_removeName]
 
 /-- The iff of the title, for a name listed once (every order without duplicates): after deleting
 `g` from `L`, the name is out of the order if and only if no layer has a glyph called `g` any more. -/
 theorem deleted_name_leaves_iff_gone (f0 : Font) (h0 : WF f0) (ops : List Op) (L : String) (g : Name)
-    (hg : HasGlyph (run f0 ops) L g) (hin : g ∈ glyphOrder (run f0 ops))
-    (hone : (glyphOrder (run f0 ops)).count g ≤ 1) :
+    (hg : HasGlyph (run f0 ops) L g) (hq : Undisturbed (run f0 ops) L)
+    (hin : g ∈ glyphOrder (run f0 ops)) (hone : (glyphOrder (run f0 ops)).count g ≤ 1) :
     g ∉ glyphOrder (step (run f0 ops) (.delGlyph L g)).1 ↔
       ¬ Exists (step (run f0 ops) (.delGlyph L g)).1 g := by
-  obtain ⟨_, _, hkeep, hgone⟩ := deleted_leaves_iff_gone f0 h0 ops L g hg
+  obtain ⟨_, _, hkeep, hgone⟩ := deleted_leaves_iff_gone f0 h0 ops L g hg hq
   constructor
   · intro hout he
     rw [hkeep he] at hout
@@ -192,7 +236,7 @@ where "the old name must stay" is evaluated after the rename (some layer still h
 * old name gone and listed, `new` already listed → `old` removed, `new` keeps its place;
 * old name gone and not listed → `new` appended unless already listed. -/
 theorem rename_order (f0 : Font) (h0 : WF f0) (ops : List Op) (L : String) (old new : Name)
-    (hg : HasGlyph (run f0 ops) L old) (hne : old ≠ new) :
+    (hg : HasGlyph (run f0 ops) L old) (hq : Undisturbed (run f0 ops) L) (hne : old ≠ new) :
     (step (run f0 ops) (.rename L old new)).2 = .ok ∧
     HasGlyph (step (run f0 ops) (.rename L old new)).1 L new ∧
     ¬ HasGlyph (step (run f0 ops) (.rename L old new)).1 L old ∧
@@ -202,7 +246,8 @@ theorem rename_order (f0 : Font) (h0 : WF f0) (ops : List Op) (L : String) (old 
         specRename (glyphOrder (run f0 ops)) old new oldStays := by
   obtain ⟨l, hget, hm⟩ := hg
   have hw := wf_run h0 ops
-  obtain ⟨h1, h2, b, hb, h3⟩ := rename_spec hw hget hm hne
+  obtain ⟨hh, hd⟩ := hq.of_get? hget
+  obtain ⟨h1, h2, b, hb, h3⟩ := rename_spec hw hget hh hd hm hne
   have hex : Exists (step (run f0 ops) (.rename L old new)).1 old ↔ ExistsElsewhere (run f0 ops) L old := by
     simp only [step]; rw [exists_congr h2, exists_setLayer]; simp [mem_addName, mem_removeName, hne]
   refine ⟨h1, ?_, ?_, ?_, b, hb.trans hex.symm, h3⟩
@@ -218,17 +263,19 @@ theorem rename_order (f0 : Font) (h0 : WF f0) (ops : List Op) (L : String) (old 
 /-- "The old name must stay" is evaluated after the glyph left its old name in its own layer: it
 holds exactly when a layer OTHER than the one renamed in has a glyph called `old`. -/
 theorem renamed_old_stays_iff_elsewhere (f0 : Font) (h0 : WF f0) (ops : List Op) (L : String)
-    (old new : Name) (hg : HasGlyph (run f0 ops) L old) (hne : old ≠ new) :
+    (old new : Name) (hg : HasGlyph (run f0 ops) L old) (hq : Undisturbed (run f0 ops) L)
+    (hne : old ≠ new) :
     Exists (step (run f0 ops) (.rename L old new)).1 old ↔ ExistsElsewhere (run f0 ops) L old := by
   obtain ⟨l, hget, hm⟩ := hg
-  obtain ⟨_, h2, _⟩ := rename_spec (wf_run h0 ops) hget hm hne
+  obtain ⟨hh, hd⟩ := hq.of_get? hget
+  obtain ⟨_, h2, _⟩ := rename_spec (wf_run h0 ops) hget hh hd hm hne
   simp only [step]; rw [exists_congr h2, exists_setLayer]; simp [mem_addName, mem_removeName, hne]
 
 /-- The position clause: when the old name is gone from every layer, was listed, and the new name
 was not listed, the new name stands at the index of the (first) old name, the length is unchanged
 and every other index holds what it held. -/
 theorem rename_takes_position (f0 : Font) (h0 : WF f0) (ops : List Op) (L : String) (old new : Name)
-    (hg : HasGlyph (run f0 ops) L old) (hne : old ≠ new)
+    (hg : HasGlyph (run f0 ops) L old) (hq : Undisturbed (run f0 ops) L) (hne : old ≠ new)
     (hgone : ¬ Exists (step (run f0 ops) (.rename L old new)).1 old)
     (hold : old ∈ glyphOrder (run f0 ops)) (hnew : new ∉ glyphOrder (run f0 ops)) :
     ∃ i, i < (glyphOrder (run f0 ops)).length ∧
@@ -238,7 +285,7 @@ theorem rename_takes_position (f0 : Font) (h0 : WF f0) (ops : List Op) (L : Stri
       (glyphOrder (step (run f0 ops) (.rename L old new)).1)[i]? = some new ∧
       (glyphOrder (step (run f0 ops) (.rename L old new)).1).length = (glyphOrder (run f0 ops)).length ∧
       ∀ j, j ≠ i → (glyphOrder (step (run f0 ops) (.rename L old new)).1)[j]? = (glyphOrder (run f0 ops))[j]? := by
-  obtain ⟨_, _, _, _, b, hb, ho⟩ := rename_order f0 h0 ops L old new hg hne
+  obtain ⟨_, _, _, _, b, hb, ho⟩ := rename_order f0 h0 ops L old new hg hq hne
   have hbf : b = false := by
     cases b with
     | false => rfl
@@ -259,22 +306,22 @@ theorem rename_takes_position (f0 : Font) (h0 : WF f0) (ops : List Op) (L : Stri
 /-- "…or is appended when the old name must stay": if after the rename some layer still has a glyph
 called `old`, the old name is not touched and `new` is appended at the end unless already listed. -/
 theorem rename_appended_when_old_stays (f0 : Font) (h0 : WF f0) (ops : List Op) (L : String)
-    (old new : Name) (hg : HasGlyph (run f0 ops) L old) (hne : old ≠ new)
+    (old new : Name) (hg : HasGlyph (run f0 ops) L old) (hq : Undisturbed (run f0 ops) L) (hne : old ≠ new)
     (hstay : Exists (step (run f0 ops) (.rename L old new)).1 old) :
     glyphOrder (step (run f0 ops) (.rename L old new)).1 =
       (if new ∈ glyphOrder (run f0 ops) then glyphOrder (run f0 ops)
        else glyphOrder (run f0 ops) ++ [new]) := by
-  obtain ⟨_, _, _, _, b, hb, ho⟩ := rename_order f0 h0 ops L old new hg hne
+  obtain ⟨_, _, _, _, b, hb, ho⟩ := rename_order f0 h0 ops L old new hg hq hne
   rw [ho, hb.mpr hstay]; rfl
 
 /-- Renaming onto a name that is already in the order (the old name gone and listed): no duplicate
 is made — the old entry is removed and the new name stays where it already was. -/
 theorem rename_onto_listed_name (f0 : Font) (h0 : WF f0) (ops : List Op) (L : String)
-    (old new : Name) (hg : HasGlyph (run f0 ops) L old) (hne : old ≠ new)
+    (old new : Name) (hg : HasGlyph (run f0 ops) L old) (hq : Undisturbed (run f0 ops) L) (hne : old ≠ new)
     (hgone : ¬ Exists (step (run f0 ops) (.rename L old new)).1 old)
     (hold : old ∈ glyphOrder (run f0 ops)) (hnew : new ∈ glyphOrder (run f0 ops)) :
     glyphOrder (step (run f0 ops) (.rename L old new)).1 = (glyphOrder (run f0 ops)).erase old := by
-  obtain ⟨_, _, _, _, b, hb, ho⟩ := rename_order f0 h0 ops L old new hg hne
+  obtain ⟨_, _, _, _, b, hb, ho⟩ := rename_order f0 h0 ops L old new hg hq hne
   have hbf : b = false := by
     cases b with
     | false => rfl
@@ -285,23 +332,23 @@ theorem rename_onto_listed_name (f0 : Font) (h0 : WF f0) (ops : List Op) (L : St
 /-- Renaming a glyph whose old name was not in the order (partial orders): the new name is appended
 unless already listed; nothing is removed. -/
 theorem rename_unlisted_old_name (f0 : Font) (h0 : WF f0) (ops : List Op) (L : String)
-    (old new : Name) (hg : HasGlyph (run f0 ops) L old) (hne : old ≠ new)
+    (old new : Name) (hg : HasGlyph (run f0 ops) L old) (hq : Undisturbed (run f0 ops) L) (hne : old ≠ new)
     (hold : old ∉ glyphOrder (run f0 ops)) :
     glyphOrder (step (run f0 ops) (.rename L old new)).1 =
       (if new ∈ glyphOrder (run f0 ops) then glyphOrder (run f0 ops)
        else glyphOrder (run f0 ops) ++ [new]) := by
-  obtain ⟨_, _, _, _, b, hb, ho⟩ := rename_order f0 h0 ops L old new hg hne
+  obtain ⟨_, _, _, _, b, hb, ho⟩ := rename_order f0 h0 ops L old new hg hq hne
   rw [ho]
   cases b <;> simp [specRename, hold, appendIfAbsent]
 
 /-- With an order that lists the old name once, the old name is out of the order after the rename
 if and only if no layer has a glyph of that name any more. -/
 theorem renamed_old_name_leaves_iff_gone (f0 : Font) (h0 : WF f0) (ops : List Op) (L : String)
-    (old new : Name) (hg : HasGlyph (run f0 ops) L old) (hne : old ≠ new)
+    (old new : Name) (hg : HasGlyph (run f0 ops) L old) (hq : Undisturbed (run f0 ops) L) (hne : old ≠ new)
     (hin : old ∈ glyphOrder (run f0 ops)) (hone : (glyphOrder (run f0 ops)).count old ≤ 1) :
     old ∉ glyphOrder (step (run f0 ops) (.rename L old new)).1 ↔
       ¬ Exists (step (run f0 ops) (.rename L old new)).1 old := by
-  obtain ⟨_, _, _, _, b, hb, ho⟩ := rename_order f0 h0 ops L old new hg hne
+  obtain ⟨_, _, _, _, b, hb, ho⟩ := rename_order f0 h0 ops L old new hg hq hne
   constructor
   · intro hout he
     rw [ho, hb.mpr he] at hout
@@ -340,25 +387,21 @@ theorem layer_ops_keep_order (f : Font) (name : String) :
     glyphOrder (step f (.delLayer name)).1 = glyphOrder f := by
   constructor
   · simp only [step, newLayer]; split <;> rfl
-  · simp only [step, delLayer]; split <;> rfl
+  · simp only [step, delLayer]
+    cases AL.get? f.layers name with
+    | none => rfl
+    | some l => simp only; split <;> rfl
 
 /-! ## 5. No new duplicates -/
 
 /-- For every start font (well formed or not), every history in which the order is only changed by
-the font's own updates (any glyph operations in any layers, new and deleted layers — no direct
-assignment of the order or the lib key) and every name: the name occurs at most once afterwards, or
-no more often than it did at the start. -/
+the font's own updates (any glyph operations in any layers or through the font, new, deleted,
+renamed, reordered layers, holds, releases, disables — no direct assignment of the order or the lib
+key) and every name: the name occurs at most once afterwards, or no more often than it did at the
+start. -/
 theorem no_new_duplicates (f0 : Font) (ops : List Op) (hops : ∀ op ∈ ops, op.isUpdate = true) (n : Name) :
-    (glyphOrder (run f0 ops)).count n ≤ max 1 ((glyphOrder f0).count n) := by
-  induction ops generalizing f0 with
-  | nil => simp only [run]; omega
-  | cons op r ih =>
-    simp only [run]
-    have h1 := ih (step f0 op).1 (fun o ho => hops o (List.mem_cons_of_mem _ ho))
-    obtain ⟨a, rm, _, _, hs⟩ := step_order_spec f0 op (hops op (List.mem_cons_self ..))
-    have h2 := count_specUpdate_le (glyphOrder f0) a rm n
-    rw [← hs] at h2
-    omega
+    (glyphOrder (run f0 ops)).count n ≤ max 1 ((glyphOrder f0).count n) :=
+  (safe_run (fun _ => True) f0 ops hops (fun _ _ _ _ => trivial) (fun _ _ => trivial)).upd.count_le n
 
 /-- In particular an order without duplicates never gets one. -/
 theorem nodup_preserved (f0 : Font) (ops : List Op) (hops : ∀ op ∈ ops, op.isUpdate = true)
@@ -374,43 +417,40 @@ example : (glyphOrder fx).Nodup := by decide
 -- a start order that already has a duplicate keeps at most that many
 example : glyphOrder (run { fx with lib := some ["a", "b", "a"] } [.newGlyph "fg" "a", .delGlyph "bg" "c"])
     = ["a", "b", "a"] := by decide
+-- a history with a held block in which notifications are coalesced
+example : ∀ op ∈ [Op.holdLayer "fg", .delGlyph "fg" "b", .newGlyph "fg" "b", .delGlyph "fg" "b",
+    .releaseLayer "fg"], op.isUpdate = true := by decide
 
 /-! ## 6. Untouched names keep their relative order -/
 
-/-- For every start font, every such history and every set `T` of names that contains all names the
-history's operations speak about: erasing the names of `T` from the order gives the same list before
-and after — names the history does not touch are neither added, dropped, duplicated nor reordered.
-(`p` is the indicator of "not in `T`".) -/
+/-- For every start font, every such history (holds and releases included) and every set `T` of
+names that contains all names the history's operations speak about — and the names of the
+notifications that were already held at the start, if any: erasing the names of `T` from the order
+gives the same list before and after — names the history does not touch are neither added, dropped,
+duplicated nor reordered.  (`p` is the indicator of "not in `T`".) -/
 theorem others_keep_relative_order (f0 : Font) (ops : List Op) (hops : ∀ op ∈ ops, op.isUpdate = true)
-    (p : Name → Bool) (hp : ∀ op ∈ ops, ∀ x ∈ op.touched, p x = false) :
-    (glyphOrder (run f0 ops)).filter p = (glyphOrder f0).filter p := by
-  induction ops generalizing f0 with
-  | nil => rfl
-  | cons op r ih =>
-    simp only [run]
-    rw [ih (step f0 op).1 (fun o ho => hops o (List.mem_cons_of_mem _ ho))
-      (fun o ho => hp o (List.mem_cons_of_mem _ ho))]
-    obtain ⟨a, rm, ha, hr, hs⟩ := step_order_spec f0 op (hops op (List.mem_cons_self ..))
-    rw [hs]
-    exact filter_specUpdate p _ a rm
-      (fun x hx => hp op (List.mem_cons_self ..) x (ha x hx))
-      (fun x hx => hp op (List.mem_cons_self ..) x (hr x hx))
+    (p : Name → Bool) (hp : ∀ op ∈ ops, ∀ x ∈ op.touched, p x = false)
+    (hq : ∀ x ∈ queuedNames f0, p x = false) :
+    (glyphOrder (run f0 ops)).filter p = (glyphOrder f0).filter p :=
+  (safe_run (fun x => p x = false) f0 ops hops hp hq).upd.filter p (fun _ h => h)
 
 /-- The same with the touched set given as a list. -/
 theorem others_keep_relative_order_list (f0 : Font) (ops : List Op)
     (hops : ∀ op ∈ ops, op.isUpdate = true) (T : List Name)
-    (hT : ∀ op ∈ ops, ∀ x ∈ op.touched, x ∈ T) :
+    (hT : ∀ op ∈ ops, ∀ x ∈ op.touched, x ∈ T) (hq : ∀ x ∈ queuedNames f0, x ∈ T) :
     (glyphOrder (run f0 ops)).filter (fun n => !T.contains n) =
       (glyphOrder f0).filter (fun n => !T.contains n) :=
   others_keep_relative_order f0 ops hops _ (fun op ho x hx => by simp [hT op ho x hx])
+    (fun x hx => by simp [hq x hx])
 
 example : (glyphOrder (run fx hx)).filter (fun n => !["a", "b", "d", "e"].contains n) = ["x", "c"] ∧
     (glyphOrder fx).filter (fun n => !["a", "b", "d", "e"].contains n) = ["x", "c"] := by decide
+example : queuedNames fx = [] := by decide
 
 /-! ## 7. Stored in and read from the font lib -/
 
 /-- The glyph order IS what the lib holds under `public.glyphOrder` (empty when the key is absent) —
-after every history, including direct assignments to the lib. -/
+after every history, including direct assignments to the lib, holds and releases. -/
 theorem stored_in_lib (f0 : Font) (ops : List Op) :
     glyphOrder (run f0 ops) = ((run f0 ops).lib).getD [] := rfl
 
@@ -459,40 +499,48 @@ example : (step fx (.setOrder (some ["q", "a"]))).1.lib = some ["q", "a"] := by 
 
 /-! ## 8. The order follows the glyph set over whole histories -/
 
-/-- No history of font-made updates ever makes a name *missing*: a glyph name that exists at the
-end and is not in the order existed at the start and was not in the order at the start.  (Every name
-created or renamed-to during the history is in the order for as long as a glyph of that name
-exists.) -/
-theorem missing_never_appears (f0 : Font) (h0 : WF f0) (ops : List Op)
-    (hops : ∀ op ∈ ops, op.isUpdate = true) (n : Name)
+/-- No history of font-made updates in which no layer's notifications are held or disabled ever
+makes a name *missing*: a glyph name that exists at the end and is not in the order existed at the
+start and was not in the order at the start.  (Every name created or renamed-to during the history
+is in the order for as long as a glyph of that name exists.)  Layers may be added, deleted — the
+default layer too —, renamed, reordered, the default layer re-assigned, glyphs created and deleted
+through the font. -/
+theorem missing_never_appears (f0 : Font) (h0 : WF f0) (hc : Calm f0) (ops : List Op)
+    (hops : ∀ op ∈ ops, op.isUpdate = true) (hs : ∀ op ∈ ops, op.isSuspend = false) (n : Name)
     (hex : Exists (run f0 ops) n) (hno : n ∉ glyphOrder (run f0 ops)) :
     Exists f0 n ∧ n ∉ glyphOrder f0 := by
   induction ops generalizing f0 with
   | nil => exact ⟨hex, hno⟩
   | cons op r ih =>
     simp only [run] at hex hno
-    have h1 := ih (step f0 op).1 (wf_step h0 op) (fun o ho => hops o (List.mem_cons_of_mem _ ho)) hex hno
-    exact missing_step h0 op (hops op (List.mem_cons_self ..)) n h1.1 h1.2
+    have hs1 := hs op (List.mem_cons_self ..)
+    have h1 := ih (step f0 op).1 (wf_step h0 op) (calm_step h0 hc op hs1)
+      (fun o ho => hops o (List.mem_cons_of_mem _ ho)) (fun o ho => hs o (List.mem_cons_of_mem _ ho)) hex hno
+    exact missing_step h0 hc op (hops op (List.mem_cons_self ..)) hs1 n h1.1 h1.2
 
 /-- Complete and superset orders stay complete: if every existing glyph name is listed at the start,
 every existing glyph name is listed after any history of font-made updates. -/
-theorem complete_preserved (f0 : Font) (h0 : WF f0) (ops : List Op)
-    (hops : ∀ op ∈ ops, op.isUpdate = true) (hc : Complete f0) : Complete (run f0 ops) := by
+theorem complete_preserved (f0 : Font) (h0 : WF f0) (hq : Calm f0) (ops : List Op)
+    (hops : ∀ op ∈ ops, op.isUpdate = true) (hs : ∀ op ∈ ops, op.isSuspend = false)
+    (hc : Complete f0) : Complete (run f0 ops) := by
   intro n hex
   by_cases hin : n ∈ glyphOrder (run f0 ops)
   · exact hin
-  · have := missing_never_appears f0 h0 ops hops n hex hin
+  · have := missing_never_appears f0 h0 hq ops hops hs n hex hin
     exact absurd (hc n this.1) this.2
 
-/-- No history of glyph operations makes a name *stale* when the start order has no duplicates: a
+/-- No history of glyph operations (through layers or through the font) in which nothing is held or
+disabled makes a name *stale* when the start order has no duplicates: a
 name listed at the end although no layer has such a glyph was already listed and glyph-less at the
 start (superset entries stay; none is created). -/
-theorem stale_never_appears (f0 : Font) (h0 : WF f0) (ops : List Op)
+theorem stale_never_appears (f0 : Font) (h0 : WF f0) (hc : Calm f0) (ops : List Op)
     (hops : ∀ op ∈ ops, op.isGlyphOp = true) (hnd : (glyphOrder f0).Nodup) (n : Name)
     (hin : n ∈ glyphOrder (run f0 ops)) (hnex : ¬ Exists (run f0 ops) n) :
     n ∈ glyphOrder f0 ∧ ¬ Exists f0 n := by
   have upd : ∀ op : Op, op.isGlyphOp = true → op.isUpdate = true := by
     intro op h; cases op <;> simp_all [Op.isGlyphOp, Op.isUpdate]
+  have nosus : ∀ op : Op, op.isGlyphOp = true → op.isSuspend = false := by
+    intro op h; cases op <;> simp_all [Op.isGlyphOp, Op.isSuspend]
   induction ops generalizing f0 with
   | nil => exact ⟨hin, hnex⟩
   | cons op r ih =>
@@ -500,26 +548,33 @@ theorem stale_never_appears (f0 : Font) (h0 : WF f0) (ops : List Op)
     have hop := hops op (List.mem_cons_self ..)
     have hnd1 : (glyphOrder (step f0 op).1).Nodup :=
       nodup_preserved f0 [op] (by intro o ho; simp at ho; subst ho; exact upd _ hop) hnd
-    have h1 := ih (step f0 op).1 (wf_step h0 op) (fun o ho => hops o (List.mem_cons_of_mem _ ho))
-      hnd1 hin hnex
-    exact stale_step h0 hnd op hop n h1.1 h1.2
+    have h1 := ih (step f0 op).1 (wf_step h0 op) (calm_step h0 hc op (nosus _ hop))
+      (fun o ho => hops o (List.mem_cons_of_mem _ ho)) hnd1 hin hnex
+    exact stale_step h0 hc hnd op hop n h1.1 h1.2
 
 /-- An exact order (each existing glyph name listed once, nothing else) stays exact under every
-history of create / insert / delete / rename operations across the layers. -/
-theorem exact_preserved (f0 : Font) (h0 : WF f0) (ops : List Op)
+history of create / insert / delete / rename operations across the layers and through the font, as
+long as nothing is held or disabled. -/
+theorem exact_preserved (f0 : Font) (h0 : WF f0) (hc : Calm f0) (ops : List Op)
     (hops : ∀ op ∈ ops, op.isGlyphOp = true) (he : Exact f0) : Exact (run f0 ops) := by
   have upd : ∀ op ∈ ops, op.isUpdate = true := by
     intro op ho
     have := hops op ho
     cases op <;> simp_all [Op.isGlyphOp, Op.isUpdate]
-  refine ⟨nodup_preserved f0 ops upd he.nodup, complete_preserved f0 h0 ops upd he.complete, ?_⟩
+  have nosus : ∀ op ∈ ops, op.isSuspend = false := by
+    intro op ho
+    have := hops op ho
+    cases op <;> simp_all [Op.isGlyphOp, Op.isSuspend]
+  refine ⟨nodup_preserved f0 ops upd he.nodup, complete_preserved f0 h0 hc ops upd nosus he.complete, ?_⟩
   intro n hin
   by_cases hex : Exists (run f0 ops) n
   · exact hex
-  · have := stale_never_appears f0 h0 ops hops he.nodup n hin hex
+  · have := stale_never_appears f0 h0 hc ops hops he.nodup n hin hex
     exact absurd (he.sound n this.1) this.2
 
 example : ∀ op ∈ [Op.delGlyph "fg" "a", .rename "fg" "b" "d", .insertGlyph "bg" "e"], op.isGlyphOp = true := by
   decide
+example : Calm fx := by unfold Calm; decide
+example : ∀ op ∈ hx, op.isSuspend = false := by decide
 
 end DefconModel.Props.C12
